@@ -43,7 +43,7 @@ CLAIMED = {
         note="Byte-fault positions are enumerated by the harness, not modelled. The wasm binding is out of scope. A copy taken while a transaction is open contains uncommitted work (known finding)."),
     "C08": dict(
         engine="query", category="model_checking", design_ref="DESIGN.md §7 C08",
-        technique="TLA+ reference semantics QuerySem.tla (pattern bindings, Kleene WHERE, DISTINCT, aggregates, ORDER/SKIP/LIMIT) evaluated by TLC as the oracle for every (graph, abstract query) case; queries rendered to GQL and Cypher (and, for path patterns with conjunctive property filters, to Gremlin: count / id / dedup) and executed on the real engine",
+        technique="TLA+ reference semantics QuerySem.tla (pattern bindings, Kleene WHERE, DISTINCT, aggregates, ORDER/SKIP/LIMIT) evaluated by TLC as the oracle for every (graph, abstract query) case; queries rendered to GQL and Cypher (and, for path patterns with conjunctive property filters, to Gremlin: count / id / dedup, and to GraphQL: root field per label with argument filters, property fields, one nested edge field) and executed on the real engine",
         text="Tens of thousands of random (graph, core query) cases per run: graphs with self-loops, parallel edges, isolated nodes, missing and heterogeneous properties; 0-2 hop patterns with labels, types, directions; three-valued predicates over node and edge properties; projections, DISTINCT, count/sum/min/max with grouping, ORDER BY + SKIP/LIMIT. TLC computes the expected bag (sequence when ordered) from QuerySem.tla and compares with the rows the engine returned, per language; both languages must agree with the same oracle.",
         note="Gremlin / GraphQL renderings, variable-length paths, avg/collect, OPTIONAL MATCH are not generated. Errors for unsupported constructs are 'no answer'."),
     "C09": dict(
